@@ -183,6 +183,9 @@ func init() {
 			}
 			return r.ctx.Bool(r.timerOf(a[0]).armed)
 		},
+		pk + "verifTimerResets": func(r *Run, fr *frame, a []Value) Value {
+			return r.ctx.Const(64, uint64(r.timerOf(a[0]).resets))
+		},
 		pk + "verifTimerDur": func(r *Run, fr *frame, a []Value) Value { return r.timerOf(a[0]).dur },
 		pk + "verifTimerPending": func(r *Run, fr *frame, a []Value) Value {
 			return r.ctx.Bool(len(r.timerOf(a[0]).ch.buf) > 0)
